@@ -1486,3 +1486,69 @@ def failing_ack_family(report, prop="C01", label="failing-acknowledgement"):
     report.obligation("corr:" + label, "correspondence", ok, f"{len(scripts)} scripted histories, every response compared")
     report.obligation("mon:" + label, "monitor", mon, "an acknowledgement with a failing reason code resolves its operation at once and releases what it held")
     return ok and mon
+
+
+def timeout_before_close_family(report, prop="C18", label="timeout-elapsed-before-close"):
+    """the ack timeout of a written operation elapses, and before any service call runs the connection ends - the driver
+    delivers the close (or first undecodable bytes / a server DISCONNECT, then the close): the operation has waited longer
+    than T, so it fails with the ack-timeout error; it is not carried to the next connection with a fresh clock."""
+    from gv import harness_batch, resp_fields
+    scripts = []
+    for v in ("5", "311"):
+        connack = "x20020000" if v == "311" else "x2003000000"
+        resumed = "x20020100" if v == "311" else "x2003010000"
+        for kind in ("sub", "pub1", "pub2"):
+            op = {"pub1": "eng.pub t=0 timeout=1000 | publish pid=0 topic=x742f30 qos=1 retain=0 payload=x00",
+                  "pub2": "eng.pub t=0 timeout=1000 | publish pid=0 topic=x742f30 qos=2 retain=0 payload=x00",
+                  "sub": "eng.sub t=0 timeout=1000 | subscribe pid=0 sub=x662f30:1:0:0:0"}[kind]
+            for how in ("close", "garbage", "disconnect"):
+                if how == "disconnect" and v == "311":
+                    continue
+                for late in (1000, 5000):
+                    sc = [f"eng.new v={v} policy=all drain=none pingto=0 resolver=none rmax=2 | ka=0 cid=x63 rejoin=always", "eng.open t=0 deadline=30000", "eng.svc t=0 cap=4096 prefill=0", "eng.wc t=0",
+                          f"eng.data t=0 b={connack}", op, "eng.svc t=0 cap=4096 prefill=0", "eng.wc t=0"]
+                    if how == "garbage":
+                        sc.append(f"eng.data t={late} b=x0000")
+                    elif how == "disconnect":
+                        sc.append(f"eng.data t={late} b=xe0028b00")
+                    sc += [f"eng.close t={late}", f"eng.open t={late + 1} deadline=90000", f"eng.svc t={late + 1} cap=4096 prefill=0", f"eng.wc t={late + 1}",
+                           f"eng.data t={late + 1} b={resumed}", f"eng.svc t={late + 1} cap=4096 prefill=0", "eng.snap"]
+                    scripts.append((sc, kind, how, late))
+    reqs, starts = [], []
+    for sc, *_ in scripts:
+        starts.append(len(reqs))
+        reqs.append("session.reset")
+        reqs += sc
+    impl = harness_batch(reqs)
+    model = driver_batch(reqs)
+    ok, mon, bad, mbad = True, True, 0, 0
+    for k, st in enumerate(starts):
+        end = starts[k + 1] if k + 1 < len(starts) else len(reqs)
+        sc, kind, how, late = scripts[k]
+        report.case("|".join(reqs[st + 1:end]))
+        report.traces_validated += 1
+        report.count(label + "." + how)
+        for i in range(st, end):
+            if canon(impl[i]) != canon(model[i]):
+                ok = False
+                if bad < 4:
+                    report.add_finding(Finding(prop, "corr:" + label, {"clause": "model-vs-impl", "verb": reqs[i].split(" ")[0]},
+                                               "timeout-before-close scenario: implementation and model disagree", reqs[st + 1:i + 1] + ["# impl:  " + impl[i][:300], "# model: " + model[i][:300]], has_input=False))
+                bad += 1
+                break
+        ci = next(i for i in range(st, end) if reqs[i].startswith("eng.close"))
+        comps = ",".join(resp_fields(impl[i])[0].get("comps", "") for i in range(st + 9, ci + 1))
+        resent, _ = resp_fields(impl[end - 2])
+        if "AckTimeout" not in comps:
+            mon = False
+            if mbad < 6:
+                again = resent.get("bytes", "x") != "x"
+                report.add_finding(Finding(prop, "mon:" + label, {"clause": "elapsed-timeout-forgotten-at-close", "how": how},
+                                           f"{kind} written at 0 ms with an ack timeout of 1000 ms; no service call ran before the connection ended at {late} ms ({how}): "
+                                           f"the operation got {comps.strip(',') or 'no result'}" + (" and was sent again on the next connection with a fresh clock" if again else ""),
+                                           reqs[st + 1:end] + ["# impl: " + impl[ci][:200]]))
+            mbad += 1
+    report.count(label + ".scenarios", len(scripts))
+    report.obligation("corr:" + label, "correspondence", ok, f"{len(scripts)} scripted histories, every response compared")
+    report.obligation("mon:" + label, "monitor", mon, "a timeout that has elapsed when the connection ends is applied, not forgotten")
+    return ok and mon
